@@ -274,4 +274,477 @@ theorem exposes_only_file_bytes_requests (o : Obj) (img : Bytes) (k : Nat) (qs :
   obtain ⟨e1, e2, e3⟩ := LoadedSec.prefix_exact hb' hd
   exact ⟨by rw [e1]; exact List.take_left' e2, e3⟩
 
+/-! ## the two-run ladder: the load of the prefix against the load of the complete image -/
+
+/-- element-wise relation of two lists -/
+inductive ListRel {α β : Type} (R : α → β → Prop) : List α → List β → Prop
+  | nil : ListRel R [] []
+  | cons {a b as bs} : R a b → ListRel R as bs → ListRel R (a :: as) (b :: bs)
+
+namespace ListRel
+variable {α β : Type} {R : α → β → Prop}
+
+theorem length_eq {as : List α} {bs : List β} (h : ListRel R as bs) : as.length = bs.length := by
+  induction h with
+  | nil => rfl
+  | cons _ _ ih => simp [ih]
+
+theorem append {as as' : List α} {bs bs' : List β} (h : ListRel R as bs) (h' : ListRel R as' bs') :
+    ListRel R (as ++ as') (bs ++ bs') := by
+  induction h with
+  | nil => exact h'
+  | cons hr _ ih => exact .cons hr ih
+
+theorem reverse {as : List α} {bs : List β} (h : ListRel R as bs) : ListRel R as.reverse bs.reverse := by
+  induction h with
+  | nil => exact .nil
+  | cons hr _ ih => rw [List.reverse_cons, List.reverse_cons]; exact ih.append (.cons hr .nil)
+
+theorem mono {R' : α → β → Prop} {as : List α} {bs : List β} (h : ListRel R as bs)
+    (hm : ∀ a b, R a b → R' a b) : ListRel R' as bs := by
+  induction h with
+  | nil => exact .nil
+  | cons hr _ ih => exact .cons (hm _ _ hr) ih
+
+theorem map {γ δ : Type} {R' : γ → δ → Prop} {as : List α} {bs : List β} (f : α → γ) (g : β → δ)
+    (h : ListRel R as bs) (hm : ∀ a b, R a b → R' (f a) (g b)) : ListRel R' (as.map f) (bs.map g) := by
+  induction h with
+  | nil => exact .nil
+  | cons hr _ ih => exact .cons (hm _ _ hr) ih
+
+theorem getElem? {as : List α} {bs : List β} (h : ListRel R as bs) (i : Nat) :
+    (as[i]? = none ∧ bs[i]? = none) ∨ ∃ a b, as[i]? = some a ∧ bs[i]? = some b ∧ R a b := by
+  induction h generalizing i with
+  | nil => left; simp
+  | cons hr _ ih =>
+    cases i with
+    | zero => right; exact ⟨_, _, rfl, rfl, hr⟩
+    | succ i => simpa using ih i
+
+theorem set {as : List α} {bs : List β} (h : ListRel R as bs) (i : Nat) {a : α} {b : β} (hr : R a b) :
+    ListRel R (as.set i a) (bs.set i b) := by
+  induction h generalizing i with
+  | nil => exact .nil
+  | cons hr' _ ih =>
+    cases i with
+    | zero => exact .cons hr ‹_›
+    | succ i => exact .cons hr' (ih i)
+
+theorem filter_map {γ : Type} {as : List α} {bs : List β} (h : ListRel R as bs) (p : α → Bool) (q : β → Bool)
+    (f : α → γ) (g : β → γ) (hpq : ∀ a b, R a b → p a = q b ∧ f a = g b) :
+    (as.filter p).map f = (bs.filter q).map g := by
+  induction h with
+  | nil => rfl
+  | cons hr _ ih =>
+    obtain ⟨h1, h2⟩ := hpq _ _ hr
+    simp only [List.filter_cons, h1]
+    split
+    · simp [h2, ih]
+    · exact ih
+
+end ListRel
+
+/-- stream of the prefix run vs stream of the run on the complete image: same kind, and the
+    complete run has not failed unless the prefix run has -/
+structure Sim (img : Bytes) (k : Nat) (sp sf : IStream) : Prop where
+  dp : sp.data = img.take k
+  df : sf.data = img
+  kind : sp.kind = sf.kind
+  fail : sf.fail = true → sp.fail = true
+
+theorem read_gcount_ne (s : IStream) (n : Nat) (h : (s.read n).1.gcount ≠ n) : (s.read n).1.fail = true := by
+  unfold IStream.read at h ⊢
+  split
+  · rfl
+  · split
+    · rename_i h1 h2; simp [h1, h2] at h
+    · rfl
+
+/-- `seekg(p); read(n)` on both streams: the prefix run either fails (and stays failed), or both
+    reads are complete and deliver the same bytes — the image's bytes at `p` -/
+theorem seekRead_sim {img : Bytes} {k : Nat} {sp sf : IStream} (h : Sim img k sp sf) (p : Int) (n : Nat)
+    (hn : 0 < n) :
+    Sim img k ((sp.seekg p).read n).1 ((sf.seekg p).read n).1 ∧
+    (((sp.seekg p).read n).1.gcount = n →
+      ((sf.seekg p).read n).1.gcount = n ∧ ((sf.seekg p).read n).2 = ((sp.seekg p).read n).2 ∧
+      ((sp.seekg p).read n).1.fail = false ∧ ((sf.seekg p).read n).1.fail = false ∧
+      0 ≤ p ∧ p.toNat + n ≤ k ∧ ((sp.seekg p).read n).2 = slice img p.toNat n) ∧
+    (((sp.seekg p).read n).1.gcount ≠ n → ((sp.seekg p).read n).1.fail = true) := by
+  have hl := take_length_le img k
+  by_cases hg : ((sp.seekg p).read n).1.gcount = n
+  · have hgood := IStream.good_of_gcount _ _ (by rw [hg]; omega)
+    obtain ⟨hp0, hpos, hspf⟩ := IStream.seekg_good _ _ hgood
+    obtain ⟨hgot, hle⟩ := IStream.read_full _ _ hg hn
+    rw [hpos] at hgot hle
+    simp only [IStream.seekg_data, h.dp] at hgot hle
+    have hsff : sf.fail = false := by
+      cases hx : sf.fail
+      · rfl
+      · rw [h.fail hx] at hspf; exact absurd hspf (by decide)
+    have e1 : sp.seekg p = { sp with eof := false, pos := p.toNat } :=
+      IStream.seekg_ok sp p hspf hp0 (by rw [h.dp]; omega)
+    have e2 : sf.seekg p = { sf with eof := false, pos := p.toNat } :=
+      IStream.seekg_ok sf p hsff hp0 (by rw [h.df]; omega)
+    have r1 := IStream.read_ok { sp with eof := false, pos := p.toNat } n
+      (by simp [IStream.good, hspf]) (by simp only [h.dp]; omega)
+    have r2 := IStream.read_ok { sf with eof := false, pos := p.toNat } n
+      (by simp [IStream.good, hsff]) (by simp only [h.df]; omega)
+    rw [e1, e2, r1, r2]
+    simp only [h.dp, h.df]
+    refine ⟨⟨rfl, rfl, h.kind, fun hx => by rw [hsff] at hx; exact absurd hx (by decide)⟩, ?_, ?_⟩
+    · intro _
+      exact ⟨trivial, (slice_take (by omega)).symm, hspf, hsff, hp0, by omega, slice_take (by omega)⟩
+    · intro hx; exact absurd rfl hx
+  · have hf := read_gcount_ne _ _ hg
+    refine ⟨⟨by simp [h.dp], by simp [h.df], by simp [h.kind], fun _ => hf⟩, fun hx => absurd hx hg, fun _ => hf⟩
+
+theorem streamSizeOf_nil_fail (s : IStream) : (streamSizeOf [] s).1.fail = s.fail := by
+  rw [streamSizeOf_nil]; cases hf : s.fail <;> simp [hf]
+
+theorem streamSizeOf_sim {img : Bytes} {k : Nat} {sp sf : IStream} (h : Sim img k sp sf) :
+    Sim img k (streamSizeOf [] sp).1 (streamSizeOf [] sf).1 :=
+  ⟨by simp [h.dp], by simp [h.df], by simp [h.kind], by
+    rw [streamSizeOf_nil_fail, streamSizeOf_nil_fail]; exact h.fail⟩
+
+/-- reading a table entry in both runs -/
+theorem hdrRead_sim {img : Bytes} {k : Nat} {sp sf : IStream} (h : Sim img k sp sf) (p : Int) (n : Nat)
+    (hn : 0 < n) :
+    Sim img k (hdrRead [] sp p n).1 (hdrRead [] sf p n).1 ∧
+    ((hdrRead [] sp p n).1.gcount = n →
+      (hdrRead [] sf p n).1.gcount = n ∧ (hdrRead [] sf p n).2 = (hdrRead [] sp p n).2 ∧
+      (hdrRead [] sp p n).1.fail = false ∧ (hdrRead [] sf p n).1.fail = false ∧
+      0 ≤ p ∧ p.toNat + n ≤ k ∧ (hdrRead [] sp p n).2 = slice img p.toNat n) ∧
+    ((hdrRead [] sp p n).1.gcount ≠ n → (hdrRead [] sp p n).1.fail = true) :=
+  seekRead_sim (streamSizeOf_sim h) p n hn
+
+/-! ### one section in both runs -/
+
+theorem g_off_gt_of_le {off ss : BitVec 64} (h : off.toNat ≤ ss.toNat) :
+    sec64_load_data_off_gt off ss = false := by
+  simp only [sec64_load_data_off_gt, BitVec.ult, decide_eq_false_iff_not]; omega
+
+theorem g_size_gt_of_le {size ss off : BitVec 64} (h : off.toNat + size.toNat ≤ ss.toNat) :
+    sec64_load_data_size_gt size ss off = false := by
+  have h1 := size.isLt; have h2 := ss.isLt; have h3 := off.isLt
+  simp only [sec64_load_data_size_gt, BitVec.ult, Bool.or_eq_false_iff, decide_eq_false_iff_not,
+    BitVec.toNat_sub, Nat.reducePow] at *
+  omega
+
+theorem loadDataPure_sameHdr (img : Bytes) (b : SecBuf) : SameHdr (loadDataPure img b).1 b := by
+  unfold loadDataPure
+  repeat' split
+  all_goals (constructor <;> rfl)
+
+theorem getDataPure_sameHdr (img : Bytes) (b : SecBuf) : SameHdr (getDataPure img b) b := by
+  unfold getDataPure
+  split
+  · split
+    · exact loadDataPure_sameHdr img b
+    · exact SameHdr.trans (by constructor <;> rfl) (loadDataPure_sameHdr img b)
+  · exact SameHdr.refl b
+
+/-- a `SHT_NULL` / `SHT_NOBITS` section never gets data -/
+theorem loadDataPure_nullish (img : Bytes) (b : SecBuf) (h : isNullOrNobitsTy b.stype = true) :
+    (loadDataPure img b).1.data = b.data := by
+  unfold loadDataPure
+  repeat' split
+  all_goals first | rfl | simp_all
+
+theorem getDataPure_nullish (img : Bytes) (b : SecBuf) (h : isNullOrNobitsTy b.stype = true) :
+    (getDataPure img b).data = b.data := by
+  unfold getDataPure
+  split
+  · split
+    · exact loadDataPure_nullish img b h
+    · exact loadDataPure_nullish img b h
+  · rfl
+
+/-- How a section of the prefix run relates to the same section of the complete run.
+    `failed` = the prefix run's stream has failed by now. -/
+inductive SecRel (failed : Bool) (bp bf : SecBuf) : Prop
+  /-- the header read came up short (only after the prefix stream failed): the zeroed header -/
+  | zero (hf : failed = true) (hz : SecZero bp)
+  /-- same header; the prefix run has no data and will never get any -/
+  | never (hs : SameFields bp bf) (hd : bp.data = none)
+      (hx : bp.canLoad = false ∨ isNullOrNobitsTy bp.stype = true)
+  /-- same header, same data pointer contents, same residency flags -/
+  | both (hs : SameFields bp bf) (hd : bp.data = bf.data) (hl : bp.isLoaded = bf.isLoaded)
+      (hc : bp.canLoad = bf.canLoad) (hn : bp.isLoaded = false → bp.data = none)
+
+theorem SecRel.mono {f f' : Bool} {bp bf : SecBuf} (h : SecRel f bp bf) (hff : f = true → f' = true) :
+    SecRel f' bp bf := by
+  cases h with
+  | zero hf hz => exact .zero (hff hf) hz
+  | never hs hd hx => exact .never hs hd hx
+  | both hs hd hl hc hn => exact .both hs hd hl hc hn
+
+/-- what the property demands of a section of the prefix run: header all-zero or identical,
+    data pointer null or the same bytes -/
+theorem SecRel.sound {f : Bool} {bp bf : SecBuf} (h : SecRel f bp bf) :
+    (SecZero bp ∨ SameFields bp bf) ∧ (bp.data = none ∨ bp.data = bf.data) := by
+  cases h with
+  | zero hf hz => exact ⟨Or.inl hz, Or.inl hz.data⟩
+  | never hs hd hx => exact ⟨Or.inr hs, Or.inl hd⟩
+  | both hs hd hl hc hn => exact ⟨Or.inr hs, Or.inr hd⟩
+
+theorem zero_nullish {b : SecBuf} (h : SecZero b) : isNullOrNobitsTy b.stype = true := by
+  rw [h.stype]; decide
+
+theorem SecZero.of_sameHdr {b' b : SecBuf} (h : SecZero b) (hs : SameHdr b' b) (hd : b'.data = b.data) :
+    SecZero b' :=
+  ⟨hs.stype.trans h.stype, hs.size.trans h.size, hs.offset.trans h.offset, hs.nameOff.trans h.nameOff,
+   hs.flags.trans h.flags, hs.addr.trans h.addr, hs.link.trans h.link, hs.info.trans h.info,
+   hs.addrAlign.trans h.addrAlign, hs.entSize.trans h.entSize, hd.trans h.data⟩
+
+theorem SameFields.symm {a b : SecBuf} (h : SameFields a b) : SameFields b a :=
+  ⟨h.stype.symm, h.size.symm, h.offset.symm, h.nameOff.symm, h.flags.symm, h.addr.symm, h.link.symm,
+   h.info.symm, h.addrAlign.symm, h.entSize.symm⟩
+
+/-- a simultaneous `get_data()` in both runs keeps the relation -/
+theorem getDataPure_rel {img : Bytes} {k : Nat} {f : Bool} {bp bf : SecBuf} (h : SecRel f bp bf)
+    (hp : LoadedSec [] bp (img.take k)) (hf : LoadedSec [] bf img)
+    (hlen : img.length < 9223372036854775808) :
+    SecRel f (getDataPure (img.take k) bp) (getDataPure img bf) := by
+  have hl := take_length_le img k
+  have hPs := (getDataPure_sameHdr (img.take k) bp)
+  have hFs := (getDataPure_sameHdr img bf)
+  cases h with
+  | zero hfl hz =>
+    exact .zero hfl (hz.of_sameHdr hPs (getDataPure_nullish _ _ (zero_nullish hz)))
+  | never hs hd hx =>
+    refine .never (SameFields.trans hPs.fields (SameFields.trans hs hFs.fields.symm)) ?_ ?_
+    · rcases hx with hx | hx
+      · unfold getDataPure; simp [hx, hd]
+      · rw [getDataPure_nullish _ _ hx]; exact hd
+    · rcases hx with hx | hx
+      · left; unfold getDataPure; simp [hx]
+      · right; rw [hPs.stype]; exact hx
+  | both hs hd hlo hc hn =>
+    have hsf' := SameFields.trans hPs.fields (SameFields.trans hs hFs.fields.symm)
+    by_cases hpend : (!bp.isLoaded && bp.canLoad) = true
+    · -- both pending
+      have hpendf : (!bf.isLoaded && bf.canLoad) = true := by rw [← hlo, ← hc]; exact hpend
+      have hld : bp.isLoaded = false := by
+        cases hx : bp.isLoaded <;> simp [hx] at hpend ⊢
+      have hcl : bp.canLoad = true := by
+        cases hx : bp.canLoad <;> simp [hx] at hpend ⊢
+      have hdn : bp.data = none := hn hld
+      have hdnf : bf.data = none := hd ▸ hdn
+      by_cases hnull : isNullOrNobitsTy bp.stype = true
+      · exact .never hsf' (by rw [getDataPure_nullish _ _ hnull]; exact hdn)
+          (Or.inr (by rw [hPs.stype]; exact hnull))
+      · have hnn : isNullOrNobitsTy bp.stype = false := by
+          cases hx : isNullOrNobitsTy bp.stype
+          · rfl
+          · exact absurd hx hnull
+        have hnnf : isNullOrNobitsTy bf.stype = false := hs.stype ▸ hnn
+        -- recorded stream sizes
+        have hssp : bp.streamSize = BitVec.ofNat 64 (img.take k).length := by
+          rcases hp.ss with ⟨-, h1⟩ | ⟨-, h2⟩
+          · exact h1
+          · have := (h2 rfl).1; rw [hnn] at this; exact absurd this (by decide)
+        have hssf : bf.streamSize = BitVec.ofNat 64 img.length := by
+          rcases hf.ss with ⟨-, h1⟩ | ⟨-, h2⟩
+          · exact h1
+          · have := (h2 rfl).1; rw [hnnf] at this; exact absurd this (by decide)
+        -- the prefix run refuses, or both load the same bytes
+        by_cases hok : (loadDataPure (img.take k) bp).2 = true
+        · -- the prefix run loaded: unfold both
+          have key : (loadDataPure (img.take k) bp).1.data =
+              some (slice (img.take k) bp.offset.toNat bp.size.toNat ++ [0]) ∧
+              bp.offset.toNat + bp.size.toNat ≤ (img.take k).length ∧
+              sec64_load_data_sizet bp.size = false := by
+            unfold loadDataPure at hok ⊢
+            by_cases h1 : sec64_load_data_off_gt bp.offset bp.streamSize = true
+            · simp [h1] at hok
+            by_cases h2 : sec64_load_data_size_gt bp.size bp.streamSize bp.offset = true
+            · simp [h1, h2] at hok
+            by_cases h4 : sec64_load_data_sizet bp.size = true
+            · simp [h1, h2, h4, hdn, hnn] at hok
+            have hle := g_size_gt_false (by simpa using h2) (g_off_gt_false (by simpa using h1))
+            rw [hssp, toNat_ofNat_len (by omega)] at hle
+            simp [h1, h2, h4, hdn, hnn]
+            rw [List.length_take] at hle; exact hle
+          obtain ⟨kd, kle, ksz⟩ := key
+          have hfull : loadDataPure img bf =
+              ({ bf with data := some (slice img bf.offset.toNat bf.size.toNat ++ [0]),
+                         dataSize := bf.size, isLoaded := true }, true) := by
+            unfold loadDataPure
+            have hle' : bf.offset.toNat + bf.size.toNat ≤ bf.streamSize.toNat := by
+              rw [hssf, toNat_ofNat_len (by omega), ← hs.offset, ← hs.size]; omega
+            rw [if_neg (by rw [g_off_gt_of_le (by omega)]; decide),
+              if_neg (by rw [g_size_gt_of_le hle']; decide),
+              if_pos (by simp [hdnf, hnnf]), if_neg (by rw [← hs.size, ksz]; decide)]
+          have hPd : (getDataPure (img.take k) bp).data =
+              some (slice (img.take k) bp.offset.toNat bp.size.toNat ++ [0]) := by
+            unfold getDataPure; rw [if_pos hpend, if_pos hok]; exact kd
+          have hFd : (getDataPure img bf).data = some (slice img bf.offset.toNat bf.size.toNat ++ [0]) := by
+            unfold getDataPure; rw [if_pos hpendf, hfull]; rfl
+          have hPl : (getDataPure (img.take k) bp).isLoaded = true := by
+            unfold getDataPure loadDataPure at *
+            by_cases h1 : sec64_load_data_off_gt bp.offset bp.streamSize = true
+            · simp [h1] at hok
+            by_cases h2 : sec64_load_data_size_gt bp.size bp.streamSize bp.offset = true
+            · simp [h1, h2] at hok
+            simp [hpend, h1, h2, ksz, hdn, hnn]
+          have hFl : (getDataPure img bf).isLoaded = true := by
+            unfold getDataPure; rw [if_pos hpendf, hfull]; rfl
+          have hPc : (getDataPure (img.take k) bp).canLoad = bp.canLoad := by
+            unfold getDataPure loadDataPure at *
+            by_cases h1 : sec64_load_data_off_gt bp.offset bp.streamSize = true
+            · simp [h1] at hok
+            by_cases h2 : sec64_load_data_size_gt bp.size bp.streamSize bp.offset = true
+            · simp [h1, h2] at hok
+            simp [hpend, h1, h2, ksz, hdn, hnn]
+          have hFc : (getDataPure img bf).canLoad = bf.canLoad := by
+            unfold getDataPure; rw [if_pos hpendf, hfull]; rfl
+          refine .both hsf' ?_ (hPl.trans hFl.symm) (by rw [hPc, hFc]; exact hc)
+            (fun hx => by rw [hPl] at hx; exact absurd hx (by decide))
+          rw [hPd, hFd, ← hs.offset, ← hs.size, slice_take (by omega)]
+        · -- the prefix run refused: it is dead from now on
+          have hPd : (loadDataPure (img.take k) bp).1.data = none := by
+            unfold loadDataPure at hok ⊢
+            repeat' split
+            all_goals first | exact hdn | simp_all
+          refine .never hsf' ?_ (Or.inl ?_)
+          · unfold getDataPure; rw [if_pos hpend, if_neg hok]; exact hPd
+          · unfold getDataPure; rw [if_pos hpend, if_neg hok]
+    · -- neither run does anything
+      have hpendf : ¬ (!bf.isLoaded && bf.canLoad) = true := by rw [← hlo, ← hc]; exact hpend
+      have e1 : getDataPure (img.take k) bp = bp := by unfold getDataPure; rw [if_neg hpend]
+      have e2 : getDataPure img bf = bf := by unfold getDataPure; rw [if_neg hpendf]
+      rw [e1, e2]
+      exact .both hs hd hlo hc hn
+
+/-- loader states of the two runs -/
+structure Sim2 (img : Bytes) (k : Nat) (kind : StreamKind) (lsp lsf : LoadSt) : Prop where
+  p : StOk [] (img.take k) kind lsp
+  f : StOk [] img kind lsf
+  fail : lsf.st.fail = true → lsp.st.fail = true
+
+theorem Sim2.sim {img k kind lsp lsf} (h : Sim2 img k kind lsp lsf) : Sim img k lsp.st lsf.st :=
+  ⟨h.p.data, h.f.data, h.p.kind.trans h.f.kind.symm, h.fail⟩
+
+theorem hdrRead_failed_fail (tr : List Trans) (st : IStream) (p : Int) (n : Nat) (h : st.fail = true) :
+    (hdrRead tr st p n).1.fail = true := by
+  have h1 := streamSizeOf_fail tr st h
+  have h2 := IStream.seekg_fail _ (trApply tr p) h1
+  have h3 : ((streamSizeOf tr st).1.seekg (trApply tr p)).good = false := by simp [IStream.good, h2]
+  exact (IStream.read_not_good _ n h3).2.1
+
+/-- once the stream has failed, `section_impl::load` leaves it failed -/
+theorem secLoad_fail_mono (c : Cls) (enc : Enc) (ls : LoadSt) (hdrOff : Int) (isLazy : Bool) (idx : Nat)
+    (h : ls.st.fail = true) : (secLoad c enc [] ls hdrOff isLazy idx).1.st.fail = true := by
+  rw [secLoad_eq]
+  have hg := (hdrRead_failed [] ls.st hdrOff (shdrSize c) h).1
+  rw [if_pos (by rw [hg]; have := shdrSize_ne_zero c; simp; omega)]
+  exact hdrRead_failed_fail [] ls.st hdrOff (shdrSize c) h
+
+@[simp] theorem secHdrOnly_isLoaded (c enc tr st got ss isLazy idx) :
+    (secHdrOnly c enc tr st got ss isLazy idx).isLoaded = false := by simp [secHdrOnly, secB0]
+@[simp] theorem secHdrOnly_canLoad (c enc tr st got ss isLazy idx) :
+    (secHdrOnly c enc tr st got ss isLazy idx).canLoad = true := by simp [secHdrOnly, secB0]
+@[simp] theorem secHdrOnly_data (c enc tr st got ss isLazy idx) :
+    (secHdrOnly c enc tr st got ss isLazy idx).data = none := by simp [secHdrOnly, secB0]
+
+theorem secHdrOnly_fields (c enc tr st st' got ss ss' isLazy idx) :
+    SameFields (secHdrOnly c enc tr st got ss isLazy idx) (secHdrOnly c enc tr st' got ss' isLazy idx) :=
+  SameFields.trans (by constructor <;> rfl)
+    (SameFields.trans (decodeShdr_fields c enc got _ _) (by constructor <;> rfl))
+
+theorem SecRel.addrSet {f : Bool} {bp bf : SecBuf} (h : SecRel f bp bf) :
+    SecRel f { bp with addrSet := true } { bf with addrSet := true } := by
+  cases h with
+  | zero hf hz => exact .zero hf ⟨hz.stype, hz.size, hz.offset, hz.nameOff, hz.flags, hz.addr, hz.link,
+      hz.info, hz.addrAlign, hz.entSize, hz.data⟩
+  | never hs hd hx => exact .never ⟨hs.stype, hs.size, hs.offset, hs.nameOff, hs.flags, hs.addr, hs.link,
+      hs.info, hs.addrAlign, hs.entSize⟩ hd hx
+  | both hs hd hl hc hn => exact .both ⟨hs.stype, hs.size, hs.offset, hs.nameOff, hs.flags, hs.addr, hs.link,
+      hs.info, hs.addrAlign, hs.entSize⟩ hd hl hc hn
+
+/-- **one section in both runs**: the loader states stay related, and the section of the prefix
+    run is the zeroed one (only if the prefix stream failed), or has the same header with data
+    absent or identical -/
+theorem secLoad_sim (c : Cls) (enc : Enc) (img : Bytes) (k : Nat) (kind : StreamKind)
+    (hlen : img.length < 9223372036854775808) (lsp lsf : LoadSt) (h : Sim2 img k kind lsp lsf)
+    (hdrOff : Int) (isLazy : Bool) (idx : Nat) :
+    Sim2 img k kind (secLoad c enc [] lsp hdrOff isLazy idx).1 (secLoad c enc [] lsf hdrOff isLazy idx).1 ∧
+    SecRel (secLoad c enc [] lsp hdrOff isLazy idx).1.st.fail
+      (secLoad c enc [] lsp hdrOff isLazy idx).2 (secLoad c enc [] lsf hdrOff isLazy idx).2 := by
+  have hlk := take_length_le img k
+  obtain ⟨-, hfull, hshort⟩ := hdrRead_sim h.sim hdrOff (shdrSize c) (Nat.pos_of_ne_zero (shdrSize_ne_zero c))
+  have specP := secLoad_spec c enc [] lsp hdrOff isLazy idx (img.take k) kind h.p
+  have specF := secLoad_spec c enc [] lsf hdrOff isLazy idx img kind h.f
+  by_cases hg : (hdrRead [] lsp.st hdrOff (shdrSize c)).1.gcount = shdrSize c
+  · obtain ⟨g1, g2, g3, g4, -, -, -⟩ := hfull hg
+    have hnz := shdrSize_ne_zero c
+    by_cases he : sec64_load_eager isLazy false = true
+    · -- eager: both runs request the data
+      have eP : secLoad c enc [] lsp hdrOff isLazy idx =
+          ((secGetData c [] { lsp with st := (hdrRead [] lsp.st hdrOff (shdrSize c)).1 }
+              (secHdrOnly c enc [] (hdrRead [] lsp.st hdrOff (shdrSize c)).1
+                (hdrRead [] lsp.st hdrOff (shdrSize c)).2 (streamSizeOf [] lsp.st).2 isLazy idx)).1,
+           { (secGetData c [] { lsp with st := (hdrRead [] lsp.st hdrOff (shdrSize c)).1 }
+              (secHdrOnly c enc [] (hdrRead [] lsp.st hdrOff (shdrSize c)).1
+                (hdrRead [] lsp.st hdrOff (shdrSize c)).2 (streamSizeOf [] lsp.st).2 isLazy idx)).2
+             with addrSet := true }) := by
+        rw [secLoad_eq, if_neg (by simp [hg]), secHdrOnly_isLoaded, if_pos he]
+      have eF : secLoad c enc [] lsf hdrOff isLazy idx =
+          ((secGetData c [] { lsf with st := (hdrRead [] lsf.st hdrOff (shdrSize c)).1 }
+              (secHdrOnly c enc [] (hdrRead [] lsf.st hdrOff (shdrSize c)).1
+                (hdrRead [] lsf.st hdrOff (shdrSize c)).2 (streamSizeOf [] lsf.st).2 isLazy idx)).1,
+           { (secGetData c [] { lsf with st := (hdrRead [] lsf.st hdrOff (shdrSize c)).1 }
+              (secHdrOnly c enc [] (hdrRead [] lsf.st hdrOff (shdrSize c)).1
+                (hdrRead [] lsf.st hdrOff (shdrSize c)).2 (streamSizeOf [] lsf.st).2 isLazy idx)).2
+             with addrSet := true }) := by
+        rw [secLoad_eq, if_neg (by simp [g1]), secHdrOnly_isLoaded, if_pos he]
+      have iP := secHdrOnly_inv c enc [] lsp.st hdrOff isLazy idx (img.take k) h.p.data (by rw [hg]; exact hnz)
+      have iF := secHdrOnly_inv c enc [] lsf.st hdrOff isLazy idx img h.f.data (by rw [g1]; exact hnz)
+      obtain ⟨pP, fP⟩ := secGetData_pure c { lsp with st := (hdrRead [] lsp.st hdrOff (shdrSize c)).1 } _
+        (img.take k) (by simp [h.p.data]) iP (by omega)
+      obtain ⟨pF, fF⟩ := secGetData_pure c { lsf with st := (hdrRead [] lsf.st hdrOff (shdrSize c)).1 } _
+        img (by simp [h.f.data]) iF hlen
+      have rel0 : SecRel false
+          (secHdrOnly c enc [] (hdrRead [] lsp.st hdrOff (shdrSize c)).1
+            (hdrRead [] lsp.st hdrOff (shdrSize c)).2 (streamSizeOf [] lsp.st).2 isLazy idx)
+          (secHdrOnly c enc [] (hdrRead [] lsf.st hdrOff (shdrSize c)).1
+            (hdrRead [] lsf.st hdrOff (shdrSize c)).2 (streamSizeOf [] lsf.st).2 isLazy idx) := by
+        rw [g2]
+        exact .both (secHdrOnly_fields ..) (by simp) (by simp) (by simp) (fun _ => by simp)
+      have rel1 := getDataPure_rel rel0 iP iF hlen
+      rw [← pP, ← pF] at rel1
+      have hPf : (secLoad c enc [] lsp hdrOff isLazy idx).1.st.fail = false := by rw [eP]; exact fP.trans g3
+      have hFf : (secLoad c enc [] lsf hdrOff isLazy idx).1.st.fail = false := by rw [eF]; exact fF.trans g4
+      refine ⟨⟨specP.1, specF.1, fun hx => by rw [hFf] at hx; exact absurd hx (by decide)⟩, ?_⟩
+      rw [hPf, eP, eF]
+      exact rel1.addrSet
+    · -- lazy: header only
+      have eP : secLoad c enc [] lsp hdrOff isLazy idx =
+          ({ lsp with st := (hdrRead [] lsp.st hdrOff (shdrSize c)).1 },
+           { secHdrOnly c enc [] (hdrRead [] lsp.st hdrOff (shdrSize c)).1
+                (hdrRead [] lsp.st hdrOff (shdrSize c)).2 (streamSizeOf [] lsp.st).2 isLazy idx
+             with addrSet := true }) := by
+        rw [secLoad_eq, if_neg (by simp [hg]), secHdrOnly_isLoaded, if_neg he]
+      have eF : secLoad c enc [] lsf hdrOff isLazy idx =
+          ({ lsf with st := (hdrRead [] lsf.st hdrOff (shdrSize c)).1 },
+           { secHdrOnly c enc [] (hdrRead [] lsf.st hdrOff (shdrSize c)).1
+                (hdrRead [] lsf.st hdrOff (shdrSize c)).2 (streamSizeOf [] lsf.st).2 isLazy idx
+             with addrSet := true }) := by
+        rw [secLoad_eq, if_neg (by simp [g1]), secHdrOnly_isLoaded, if_neg he]
+      have hPf : (secLoad c enc [] lsp hdrOff isLazy idx).1.st.fail = false := by rw [eP]; exact g3
+      have hFf : (secLoad c enc [] lsf hdrOff isLazy idx).1.st.fail = false := by rw [eF]; exact g4
+      refine ⟨⟨specP.1, specF.1, fun hx => by rw [hFf] at hx; exact absurd hx (by decide)⟩, ?_⟩
+      rw [hPf, eP, eF, g2]
+      exact (SecRel.both (secHdrOnly_fields ..) (by simp) (by simp) (by simp) (fun _ => by simp)).addrSet
+  · -- the prefix run's header read came up short: zeroed section, failed stream
+    have hfl := hshort hg
+    have eP : secLoad c enc [] lsp hdrOff isLazy idx =
+        ({ lsp with st := (hdrRead [] lsp.st hdrOff (shdrSize c)).1 },
+         { secB0 c [] (streamSizeOf [] lsp.st).2 isLazy idx with addrSet := true }) := by
+      rw [secLoad_eq, if_pos (by simp [hg])]
+    have hPf : (secLoad c enc [] lsp hdrOff isLazy idx).1.st.fail = true := by rw [eP]; exact hfl
+    refine ⟨⟨specP.1, specF.1, fun _ => hPf⟩, ?_⟩
+    rw [hPf, eP]
+    exact .zero rfl (by constructor <;> rfl)
+
 end ElfioVerif.C17
